@@ -360,10 +360,17 @@ def replay_one(tx):
                                 "replay": {"hist": tx["hist"], "act": act, "from": tx["from"], "to": tx["to"],
                                            "conc": conc.describe(), "opts": {k: opts[k] for k in ("seed", "names", "attrs")}}})
     try:
-        for a in tx["hist"]:
+        for k, a in enumerate(tx["hist"]):
             exc = sess.apply(a)
             res["calls"] += 1
             if (exc is None) != (a["out"] == "ok"):
+                # reported here as well: the transition this call belongs to may have been skipped by the stride
+                res["findings"].append({
+                    "key": key_of({"act": a}, "outcome", "accepted" if exc is None else "raised_" + type(exc).__name__),
+                    "stage": "outcome", "out": a["out"],
+                    "detail": {"expected": a["out"], "observed": "ok" if exc is None else repr(exc)[:200], "in_history_at": k + 1},
+                    "replay": {"hist": tx["hist"][:k], "act": a, "from": None, "to": None, "conc": conc.describe(),
+                               "opts": {kk: opts[kk] for kk in ("seed", "names", "attrs")}}})
                 res["truncated"] = 1
                 return res
         exp_from = expected(tx["from"], conc, names)
